@@ -228,6 +228,7 @@ QuickSlice(sh, st, e, pos) ==
    \/ (st \in AbsStyles /\ sh.shape \in {"direct", "child", "wholefile"} /\ e = "datapath" /\ pos = "op")
    \/ sh.shape = "otherhost_samepath"
    \/ (sh.shape \in {"collection", "collection_local"} /\ st = "plain" /\ e \in {"file_abs", "data"})
+   \/ (pos = "op2" /\ st = "plain" /\ e = "file_abs")
    \/ (sh.shape = "pi_local" /\ st = "plain" /\ e \in {"file_abs", "data"})
    \/ (sh.shape = "childdangling_whole" /\ st = "plain" /\ e \in {"file_abs", "file_rel"} /\ pos = "op")
    \/ (sh.shape = "samepath_twohosts" /\ st = "plain" /\ e \in {"file_abs", "uri_remote", "datapath"})
@@ -242,9 +243,12 @@ QuickSlice(sh, st, e, pos) ==
 
 CONSTANT Allows      \* settings of IsExternalRefsAllowed to generate
 VARIABLE case
-Init == \E k \in Kinds \cup {PI}, st \in Styles, e \in Entries, pos \in {"op", "comp"}, al \in Allows :
+(* pos: where the root makes its reference: in an operation ("op"), as a component of its own ("comp"), or in TWO  *)
+(* operations at once ("op2": the same reference text twice; both must end up at the same object)                  *)
+Init == \E k \in Kinds \cup {PI}, st \in Styles, e \in Entries, pos \in {"op", "comp", "op2"}, al \in Allows :
           \E sh \in (IF k = PI THEN PathItemShapes(st) ELSE Shapes(k, st)) :
              /\ (k = PI => pos = "op")
+             /\ (pos = "op2" => sh.shape \in {"direct", "chain3", "child", "childlocal", "wholefile", "selfcycle", "backref"} /\ e \in {"file_abs", "file_rel"})
              /\ (Tier = "quick" => QuickSlice(sh, st, e, pos))
              /\ (e = "uri_remote" => st \in RelStyles)
              /\ (k = "securitySchemes" => pos = "comp")        \* security schemes are referenced by name, not by $ref
